@@ -39,6 +39,8 @@ func runC04(p *Prog, r *Result) {
 	checkPatternOperatorAgreement(p, r, "R04e")
 	r.Rule("R04f", "the `$name` to `name` inlining is never applied to an array index or to an arithmetic node inside one", 5)
 	checkIndexNotInlined(p, r, si, "R04f")
+	r.Rule("R04g", "every piece of syntax the lexer reads in a state where a single quote is an ordinary character is marked by the simplifier, so that nothing inside it is re-quoted with single quotes", 2)
+	checkQuoteContextsMarked(p, r, si, "R04g")
 	r.Rule("R04d", "string builders used across loop iterations in the simplifier are reset on every path back to the loop head", 0)
 
 	simpT := lookupType(pkg, "simplifier")
@@ -817,6 +819,8 @@ func reachableFromAvoidingBlock(g *FGraph, b *FBlock, i int, head *FBlock, stop 
 }
 
 var c04Controls = []Control{
+	{Name: "heredoc-body-not-marked", Rule: "R04g", WantKey: "words inside Redirect.Hdoc are not re-quoted", File: "syntax/simplify.go",
+		Mutate: ctlReplaceAnywhere("\t\t\ts.markDblQuoted(node.Hdoc)\n", "\t\t\t_ = node.Hdoc\n")},
 	{Name: "binary-expression-inside-an-index-inlined", Rule: "R04f", WantKey: "visit#BinaryArithm: inlining #1 only outside an index", File: "syntax/simplify.go",
 		Mutate: ctlReplaceAnywhere("\tcase *BinaryArithm:\n\t\tif !s.inIndex[node] {\n\t\t\tnode.X = s.inlineSimpleParams(node.X)\n\t\t\tnode.Y = s.inlineSimpleParams(node.Y)\n\t\t}\n", "\tcase *BinaryArithm:\n\t\tnode.X = s.inlineSimpleParams(node.X)\n\t\tnode.Y = s.inlineSimpleParams(node.Y)\n")},
 	{Name: "array-element-index-inlined", Rule: "R04f", WantKey: "visit#ArrayElem.Index is marked and never inlined", File: "syntax/simplify.go",
